@@ -120,3 +120,58 @@ def build_cli(repo, spec_dir, chunk=1, canary=False):
                   'adjacent statement chunks of handle_input run back to back (sequential composition of slices)',
                   'RegExpBuilder::from / with_syntax_highlighting / build are assumed (iterator chain / cfg(feature) / pipeline)']
     return b
+
+# ---------------------------------------------------------------------------------------------------------------------
+PY = {'py_with_conversion_of_digits': 'set_digit', 'py_with_conversion_of_non_digits': 'set_non_digit', 'py_with_conversion_of_whitespace': 'set_space',
+      'py_with_conversion_of_non_whitespace': 'set_non_space', 'py_with_conversion_of_words': 'set_word', 'py_with_conversion_of_non_words': 'set_non_word',
+      'py_with_conversion_of_repetitions': 'set_rep', 'py_with_case_insensitive_matching': 'set_ci', 'py_with_capturing_groups': 'set_cap',
+      'py_with_verbose_mode': 'set_verbose', 'py_without_start_anchor': 'set_no_start', 'py_without_end_anchor': 'set_no_end', 'py_without_anchors': 'set_no_anchors'}
+
+def build_python(repo, spec_dir, canary=False):
+    """C14: the #[pymethods] wrappers have exactly the library setters' effect; errors carry the library's messages; build applies the escape rewrite iff escaping is on."""
+    b = Builder('python', repo, canary)
+    b.emit('use vstd::prelude::*;\nverus! {')
+    B.emit_types_and_spec(b, lemmas=False)
+    bu = b.src('builder.rs')
+    for c in ['MISSING_TEST_CASES_MESSAGE', 'MINIMUM_REPETITIONS_MESSAGE', 'MINIMUM_SUBSTRING_LENGTH_MESSAGE']:
+        m = re.search(r'pub\(crate\) const ' + c + r': &str =\s*("(?:[^"\\]|\\.)*");', bu)
+        if not m: raise X.LostAnchor(c)
+        b.emit("pub const %s: &'static str = %s;" % (c, m.group(1)))
+    b.emit('''// pyo3 stand-ins (rule R20): PyRefMut<Self> is an exclusive borrow of the Python-owned object, PyResult<T> = Result<T, PyErr>
+pub struct PyErr { pub x: u8 }
+pub type PyResult<T> = Result<T, PyErr>;
+pub uninterp spec fn value_error(msg: Seq<char>) -> PyErr;
+pub struct PyValueError { pub x: u8 }
+impl PyValueError { #[verifier::external_body] pub fn new_err(msg: &str) -> (r: PyErr) ensures r == value_error(msg@) { unimplemented!() } }
+pub uninterp spec fn build_spec(b: RegExpBuilder) -> Seq<char>;
+pub uninterp spec fn py_escapes(s: Seq<char>) -> Seq<char>;     // \\u{h..} -> \\uXXXX / \\UXXXXXXXX (two regex replace_all calls; not decided)
+#[verifier::external_body] pub fn replace_unicode_escape_sequences(regexp: String) -> (r: String) ensures r@ == py_escapes(regexp@) { unimplemented!() }
+impl RegExpConfig {''')
+    b.verified_fn('config.rs', 'new', within=r'^impl RegExpConfig \{', props=['C07'], fname='RegExpConfig::new',
+                  clauses=[Clause('python.config_new', 'r == default_config()', ['C14'])])
+    fields = [f for f, _ in B.config_fields(b)]
+    b.emit('}\npub open spec fn default_config() -> RegExpConfig { RegExpConfig { %s } }' % ', '.join('%s: %s' % (f, DEFAULTS.get(f, 'false')) for f in fields))
+    b.emit('''impl RegExpBuilder {
+    #[verifier::external_body] pub fn build(&mut self) -> (r: String) ensures r@ == build_spec(*old(self)), final(self).config == old(self).config { unimplemented!() }''')
+    P = r'^impl RegExpBuilder \{'
+    R20 = [('R20', r'\bmut self_: PyRefMut<Self>', 'self_: &mut Self', 'pyo3 PyRefMut<Self> = exclusive borrow'), ('R20', r'PyRefMut<Self>', '&mut Self', 'pyo3 PyRefMut<Self> = exclusive borrow')]
+    src = 'python.rs'
+    b.verified_fn(src, 'new', within=P, props=['C07'], fname='python::new', extra_rules=R20, clauses=[
+        Clause('python.new.empty', 'test_cases@.len() == 0 ==> r is Err && r->Err_0 == value_error(MISSING_TEST_CASES_MESSAGE@)', ['C14']),
+        Clause('python.new.nonempty', 'test_cases@.len() > 0 ==> r is Ok && r->Ok_0.test_cases == test_cases && r->Ok_0.config == default_config()', ['C14'])])
+    for m, sp in PY.items():
+        b.verified_fn(src, m, within=P, props=['C07'], fname='python::' + m, extra_rules=R20, clauses=[
+            Clause('python.%s.effect' % m, 'r.config == %s(old(self_).config)' % sp, ['C14']),
+            Clause('python.%s.frame' % m, 'r.test_cases == old(self_).test_cases && *final(r) == *final(self_)', ['C14'])])
+    b.verified_fn(src, 'py_with_escaping_of_non_ascii_chars', within=P, props=['C07'], fname='python::py_with_escaping_of_non_ascii_chars', extra_rules=R20, clauses=[
+        Clause('python.py_with_escaping_of_non_ascii_chars.effect', 'r.config == set_escape(old(self_).config, use_surrogate_pairs) && r.test_cases == old(self_).test_cases && *final(r) == *final(self_)', ['C14'])])
+    for m, sp, p, msg in [('py_with_minimum_repetitions', 'set_min_rep', 'quantity', 'MINIMUM_REPETITIONS_MESSAGE'), ('py_with_minimum_substring_length', 'set_min_len', 'length', 'MINIMUM_SUBSTRING_LENGTH_MESSAGE')]:
+        b.verified_fn(src, m, within=P, props=['C07'], fname='python::' + m, extra_rules=R20, clauses=[
+            Clause('python.%s.nonpositive' % m, '%s <= 0 ==> (r is Err && r->Err_0 == value_error(%s@) && *final(self_) == *old(self_))' % (p, msg), ['C14']),
+            Clause('python.%s.positive' % m, '%s > 0 ==> (r is Ok && r->Ok_0.config == %s(old(self_).config, %s as u32) && r->Ok_0.test_cases == old(self_).test_cases && *final(r->Ok_0) == *final(self_))' % (p, sp, p), ['C14'])])
+    b.verified_fn(src, 'py_build', within=P, props=['C07'], fname='python::py_build', extra_rules=R20, clauses=[
+        Clause('python.build.delegates', 'r@ == (if old(self).config.is_non_ascii_char_escaped { py_escapes(build_spec(*old(self))) } else { build_spec(*old(self)) })', ['C14'])])
+    b.emit('}\n} // verus!\nfn main() {}')
+    b.trusted += ['pyo3 glue (#[pymethods], #[new], #[classmethod], #[pyo3(name)]) is stripped (R0); PyRefMut<Self> is treated as an exclusive borrow (R20); PyValueError::new_err builds a ValueError with the given message',
+                  'replace_unicode_escape_sequences (two regex replace_all calls) is opaque: whether every \\u{h..} form is rewritten is NOT decided', 'RegExpBuilder::build is the library pipeline (opaque here)']
+    return b
